@@ -455,6 +455,35 @@ def rstep (c : RCfg) (s : RSt) : ROp → RSt × EnqOut
 
 def rrun (c : RCfg) (ops : List ROp) : RSt := ops.foldl (fun s o => (rstep c s o).1) {}
 
+/-! ## The stop sequence (`startstop.Stop` over main.go's object graph)
+
+`startstop.Stop` stops the components level by level, dependants first — the App, its two routers,
+the collector, the two transmissions — and **returns at the first error**, leaving the rest
+running.  Every `Stop` but the router's returns nil.  `Router.Stop` is
+`server.Shutdown(ctx)` with `ctx` = `context.WithTimeout(…, grace)`: nil when no request is in
+flight, otherwise nil iff the requests in flight finish within `grace` (nanoseconds; `time.Minute`
+in the code).
+-/
+inductive Comp | app | incomingRouter | peerRouter | collector | upstreamTx | peerTx
+  deriving DecidableEq, Repr
+
+def stopOrder : List Comp := [.app, .incomingRouter, .peerRouter, .collector, .upstreamTx, .peerTx]
+
+/-- does this component's `Stop` return nil: `grace` = the router's shutdown timeout, `finishIn` =
+`some d` when a request is in flight on the incoming listener and completes after `d` -/
+def compStopOk (grace : Nat) (finishIn : Option Nat) : Comp → Bool
+  | .incomingRouter => match finishIn with
+      | none => true
+      | some d => decide (d ≤ grace)
+  | _ => true
+
+/-- the components whose `Stop` has been called, and whether the sequence was aborted by an error -/
+def stopSeq (grace : Nat) (finishIn : Option Nat) : List Comp → List Comp × Bool
+  | [] => ([], false)
+  | c :: rest =>
+    if compStopOk grace finishIn c then (c :: (stopSeq grace finishIn rest).1, (stopSeq grace finishIn rest).2)
+    else ([c], true)
+
 /-! ## `Agent.healthCheck`
 
 The loop as it is now (commit 4b2120c, `fixed = true`):
